@@ -485,17 +485,17 @@ def hook_cases(rng, tier, n_classes):
     return cases
 
 
-def default_cases(rng, tier, n_classes):
+def default_cases(rng, tier, n_classes, ext=False):
     """classes whose non-required fields carry DEFAULTS - valid ones, boundary neighbours of the field's
     constraints and ==-equal values of another type (a falsy default is not checked when the class is defined:
     it must be checked when it is applied) - constructed with the field left out / supplied / None, and sent
     through entry-point chains.  One possibly-invalid thing per case, so the error class is determined."""
     cases = []
     for ci in range(n_classes):
-        dg = gen.DeclGen(rng, max_depth=rng.choice([1, 1, 2]))
+        dg = gen.DeclGen(rng, max_depth=rng.choice([1, 1, 2]), **({"ext": True, "allow": ["xstring", "integer", "string", "seqOf", "mapOf"]} if ext else {}))
         vg = gen.ValGen(rng)
         cls = dg.class_decl(0, n_fields=rng.choice([1, 2, 2, 3]))
-        cls["name"] = f"D{ci}"
+        cls["name"] = f"{'XD' if ext else 'D'}{ci}"
         fix_accepts(cls)
         # the first field becomes the defaulted one
         name, fd = cls["fields"][0]
